@@ -47,7 +47,7 @@ def bystanders(rng, pid0, max_per=3, cleanup=False):
             if fl == "thr":
                 script = [rng.choice([["forever", 0.02], ["wait", "never"], ["block", 30]])]
             else:
-                script = [rng.choice([["forever", 0.01], ["forever", 0.0], ["sleep", 1000], ["spin", 3]])]
+                script = [rng.choice([["forever", 0.01], ["forever", 0.0], ["sleep", 1000], ["spin", 3], ["park"]])]
                 if script[0][0] == "spin":
                     script.append(["forever", 0.01])
             p = {"pid": pid, "fl": fl, "script": script, "role": "bystander"}
@@ -191,7 +191,10 @@ def fam_termination(rng):
     no_swallow_with_loop_killers(allp)
     before, control, helpers, pid = place(rng, allp, pid)
     allp += helpers
-    control = [["wait-running"]] + control + [["wait-count", "start", len(allp), 3], ["sleep", rng.choice([0.0, 0.02, 0.06])]] + tail
+    control = [["wait-running"]] + control + [["wait-count", "start", len(allp), 3], ["sleep", rng.choice([0.0, 0.02, 0.06])]]
+    if rng.random() < 0.5:
+        control += [["gc"], ["sleep", 0.01]]
+    control += tail
     return {"family": "termination", "trigger": trigger, "payloads": allp, "before": before, "control": control, "watchdog": 14}
 
 
@@ -319,6 +322,10 @@ def fam_execute(rng):
         e = {"pid": pid, "fl": fl, "script": [["end", out]], "role": "executed", "out": out, "args": args}
         if fl != "thr" and rng.random() < 0.25:
             e["plainfn"] = True
+        elif (args["args"] or args["kwargs"]) and rng.random() < 0.3:
+            # the payload is a decorated callable whose wrapper takes other arguments than the
+            # function it wraps declares (functools.wraps keeps the declared signature visible)
+            e["decorated"] = True
         pid += 1
         execs.append(e)
         ctx = rng.choice(["outside", "thr"] + [c for c in ("aio", "trio") if c != fl])
@@ -502,6 +509,7 @@ def fam_lifecycle(rng):
     nruns = rng.randint(2, 4)
     # the polling loop of accept looks at the shutdown request every `accept_delay` at most
     accept_delay = rng.choice([0.02, 0.02, 0.2])
+    slow_set = {}
     for r in range(nruns):
         rid = r
         by, pid2 = bystanders(rng, pid, max_per=2)
@@ -544,7 +552,12 @@ def fam_lifecycle(rng):
         elif end == "sigint":
             ctl.append(["sigint"])
         elif end == "failure":
-            f = {"pid": pid, "fl": rng.choice(FLAVS), "script": [["end", {"kind": "exc"}]], "role": "failing", "mode": "outside", "out": {"kind": "exc"}}
+            # an ordinary exception, or one of those that end accept() with something else than RuntimeError
+            # (SystemExit, another BaseException, a KeyboardInterrupt raised by the payload itself)
+            out = rng.choice([{"kind": "exc"}, {"kind": "exc"}, {"kind": "baseExc", "cls": "SystemExit"}, {"kind": "baseExc", "cls": "TaggedBase"}, {"kind": "kbd"}])
+            if out["kind"] != "exc":
+                end = "failure-base"
+            f = {"pid": pid, "fl": rng.choice(FLAVS), "script": [["end", out]], "role": "failing", "mode": "outside", "out": out}
             pid += 1
             by.append(f)
             ctl.append(["adopt", f["pid"], rid])
@@ -553,13 +566,22 @@ def fam_lifecycle(rng):
             pid += 1
             by.append(f)
             ctl.append(["adopt", f["pid"], rid])
+        if end == "shutdown" and rng.random() < 0.3:
+            # shutdown() in the very instant the runner reports running: the thread that reports it is
+            # preempted right after setting the flag (the worker stretches that instant)
+            by = []
+            ctl = [["wait-running", rid], ["shutdown", rid]]
+            slow_set[str(rid)] = rng.choice([0.02, 0.05])
         payloads += by
         after = []
         if rng.random() < 0.4:
             # shutdown() on a runner that has already ended, from this and from another thread
             after = rng.choice([[["shutdown", rid]], [["shutdown", rid], ["threads", [[["shutdown", rid]]]]], [["threads", [[["shutdown", rid]], [["shutdown", rid]]]]]])
         runs.append({"rid": rid, "control": ctl, "end": end, "join": 4, "after": after})
-    return {"family": "lifecycle", "payloads": payloads, "runs": runs, "watchdog": 25, "accept_delay": accept_delay}
+    if any(loop_killer(p) for p in payloads):
+        for p in payloads:
+            p.pop("swallow", None)
+    return {"family": "lifecycle", "payloads": payloads, "runs": runs, "watchdog": 25, "accept_delay": accept_delay, "slow_running": slow_set}
 
 
 FAMILIES = {"failure": fam_failure, "termination": fam_termination, "startonce": fam_startonce,
